@@ -10,12 +10,30 @@ ENTRIES = {
  "C01": dict(cat="exploration", engine="sweep", tech=TECH_SWEEP,
   text="Bounded exhaustive exploration of the real Curve2/Curve3 station code: every lattice vertex sequence up to the length bound x closure x scale x tolerance, every critical arc length (incl. +-1 ulp), compared with a linear-scan reference model. No execution in the enumerated space violates the property.",
   note="Small-scope hypothesis (local index/branch rules fail on small instances); tolerances 1e-9*extent / 16 ulp of L; direction at exactly reversing vertices is undefined by the statement and counted as gray."),
+ "C02": dict(cat="exploration", engine="sweep", tech=TECH_SWEEP,
+  text="Every small lattice curve (2D/3D) and 105 structured large polylines (5..5000 edges, every QBVH occupancy/depth) x query grids, all 1024 small height-field meshes + 4 solids x query grid x distance caps x angle limits, each answer compared with brute force over every edge/face (distance, point, index/fraction or face/barycentric location, normal, cap and angle filters).",
+  note="Ties: any minimiser accepted; gray zones at distance == cap, zero offset, angle on the acceptance boundary; inside queries only on non-solid meshes (is_solid is inert for Mesh::new)."),
+ "C03": dict(cat="exploration", engine="sweep", tech=TECH_SWEEP + " (metamorphic oracle: f(Tx)=f(x), g(Tx)=T g(x))",
+  text="Every entity of a finite menu (lattice curves, 16 meshes, 120 planes, surface points, segments, point clouds, distances) x the full isometry menu (24 in 2D, 93 in 3D, translations up to 1e3) x query grids; invariance of scalars, equivariance of geometric results, inverse and composition clauses.",
+  note="Recorded finding (known_findings.json): the normal / ToPlane deviation at mesh edges and vertices depends on the frame. Closest points compared only when the brute-force minimiser is unique; tolerance 1e-9*(1+|t|+extent)."),
  "C04": dict(cat="model_checking", engine="bfs", tech=TECH_BFS,
   text="Explicit-state breadth-first search over curves reachable by <= 3 portion/split/trim/reverse operations from every small lattice curve; every transition calls the real method and is compared with the arc-length reference piece; portion-of-portion is compared with the direct portion (history vs from-scratch).",
   note="Bounded depth and root size; pieces compared within 4*tol (the curve constructor merges vertices within tol at each end); requests inside the tolerance band are gray; tolerance-scale pieces are judged but not expanded."),
  "C05": dict(cat="exploration", engine="sweep", tech=TECH_SWEEP,
   text="Every lattice curve up to the length bound (2D open/closed, 3D) x scales straddling one unit of length x the full request menu for resample (count, spacing, max spacing), simplify, RDP and fill_gaps, judged against the arc-length point function and brute-force segment distances.",
   note="Resampling clauses judged on simple (non self-overlapping) sources only, where span and spacing are well defined; degenerate requests on closed curves may be rejected (gray)."),
+ "C06": dict(cat="exploration", engine="sweep", tech=TECH_SWEEP + " (differential: accelerated search vs per-edge scan)",
+  text="Every vertex sequence over the 4x4 lattice up to the length bound and 105 structured large polylines x a grid of origins x 14 directions (axis-parallel, zero components, negative parameters, near-parallel): the QBVH-accelerated search must equal sort+dedup of the per-edge routine over every edge and an independent closed form; spanning ray, largest intersection, farthest vertex and surface-point intersections are checked against the same scan.",
+  note="A mismatch is gray only for a line grazing a vertex (both neighbours on one side) or touching an end vertex; transversal crossings through a vertex must be reported."),
+ "C16": dict(cat="model_checking", engine="bfs, sweep", tech=TECH_BFS + "; plus " + TECH_SWEEP,
+  text="State-space search of SurfaceDeviationSet (all push histories <= 5 over a tie-producing alphabet from default() and new(v)) and PointCloud (append/merge/select histories, rejected operations must change nothing) against Vec models, with from-scratch comparison on every state; exhaustive sweeps of curve and mesh deviations (sign, magnitude, reconstruction), directed distances and every small tolerance table.",
+  note="Deviation sign judged only where the offset has a non-zero normal component; plane-mode value at mesh edges may use any adjacent face (C03 finding)."),
+ "C17": dict(cat="model_checking", engine="bfs, sweep", tech=TECH_BFS + "; plus " + TECH_SWEEP,
+  text="State-space search over series reachable by <= 3-4 derived operations (slice, split, scale incl. negative, shift, resample, NaN removal, abs) from every small series over a tie-producing alphabet; invariant (finite ascending abscissae, matching ordinates) on every state, function preservation on every transition, level crossings at every stored/mid level; exhaustive constructor sweeps (try_from, push histories, linear/linear_space with bounds in both orders).",
+  note="Function preservation judged on strictly ascending NaN-free series; flat segments lying on the level only require termination and soundness of reported abscissae."),
+ "C18": dict(cat="exploration", engine="sweep", tech=TECH_SWEEP,
+  text="Complete enumeration of a 111-value angle alphabet (multiples of pi/4 with +-1 ulp neighbours, tiny, huge): every angle, every ordered pair x direction, every (start, extent) interval x every test angle, every pair of intervals; every ordered pair of 56 vectors; every scalar interval and pair over bounds incl. equal and infinite ones.",
+  note="Direction equality on sin/cos within 8 ulp*(1+|a|); interval membership gray within 1e-9 of an end except the stored ends themselves."),
 }
 
 NOT_YET = "check under construction (will be claimed once its exhaustive exploration is implemented)"
